@@ -284,6 +284,34 @@ func c18Build(c *c18Case) (shared []any, ops []c18Op, err error) {
 		}
 		return hex.EncodeToString(msg.Payload)
 	}})
+	// ... and distinct envelopes produced from ONE prepared Headers value (SignHashEnvelope works on a copy of the
+	// caller's protected map; the prepared value is only read): without alg, once already naming the payload's hash
+	// algorithm under 258, once not
+	for pi, prepared := range []cose.Headers{
+		{Protected: cose.ProtectedHeader{int64(258): cose.AlgorithmSHA256, int64(4): []byte("kid")}, Unprotected: cose.UnprotectedHeader{int64(99): "u"}},
+		{Protected: cose.ProtectedHeader{int64(258): cose.AlgorithmSHA256}},
+		{Protected: cose.ProtectedHeader{int64(4): []byte("kid")}, Unprotected: cose.UnprotectedHeader{}},
+	} {
+		prepared := prepared
+		shared = append(shared, prepared.Protected)
+		var hctr struct {
+			sync.Mutex
+			n int
+		}
+		ops = append(ops, c18Op{fmt.Sprintf("SignHashEnvelope/shared-prepared-headers-%d", pi), func() string {
+			hctr.Lock()
+			hctr.n++
+			id := hctr.n
+			hctr.Unlock()
+			d := sha256.Sum256([]byte(fmt.Sprintf("distinct content %d", id)))
+			env, e := cose.SignHashEnvelope(refcose.NewEntropy(nil), hs, prepared, cose.HashEnvelopePayload{HashAlgorithm: cose.AlgorithmSHA256, HashValue: d[:]})
+			if e != nil {
+				return errStr(e)
+			}
+			_, e = cose.VerifyHashEnvelope(hv, env)
+			return errStr(e)
+		}})
+	}
 	// one signer shared by goroutines that sign distinct messages
 	sk := spec.Sigs[0].Key
 	sg, err := libSigner(sk, false)
